@@ -26,10 +26,18 @@ impl ResourcesState {
         })
     }
 
-    /// Where files of `other` (the outputs a build just wrote) are among the files that
-    /// `resources` (its inputs) denote, their state in `other` replaces the one held here.
-    pub async fn adopt_files(&mut self, resources: &Resources, other: &Self) {
-        self.fs.adopt(&resources.files, &other.fs).await
+    /// Where files of `other` (the outputs a build just wrote, declared by `other_resources`)
+    /// are among the files that `resources` (its inputs) denote, their state in `other` replaces
+    /// the one held here; files held here that the build removed from its outputs are dropped.
+    pub async fn adopt_files(
+        &mut self,
+        resources: &Resources,
+        other: &Self,
+        other_resources: &Resources,
+    ) {
+        self.fs
+            .adopt(&resources.files, &other.fs, &other_resources.files)
+            .await
     }
 
     pub async fn eq_current_state(&self, resources: &Resources) -> bool {
